@@ -423,11 +423,6 @@ def _task_scale(task):
 
 def scale_case(kind, n):
     from mcx.checks import c01
-    if kind == 'g':
-        return 'gy', ['i' * n, 5]
-    if kind == 'v-long-sig':
-        return 'v', [Var('(' + 'y' * (n - 2) + ')',
-                         [i % 256 for i in range(n - 2)])]
     return c01.scale_values(kind, n)
 
 
